@@ -1,0 +1,75 @@
+//go:build verif
+
+package db
+
+// Contracts checked by /verif's govc (protocol dialect: control flow, nil-ness of errors and ghost
+// state are precise, everything else is abstracted).  Comments only; build tag "verif".
+
+//@ unit db errflow
+//@ // failed: some sub-operation returned an error that was not handled
+//@ ghost failed bool
+//@ // typestate of the implicit transaction owned by a public API call
+//@ ghost owned bool
+//@ ghost discardDeferred bool
+//@ ghost commitCalls int
+//@ ghost committed bool
+//@
+//@ // ---- error constructors never return nil and are not sub-operations ---------------------------
+//@ extern NewErr* -> (e)
+//@   ensures e != nil
+//@   nodefault
+//@ extern client.NewErr* -> (e)
+//@   ensures e != nil
+//@   nodefault
+//@ extern errors.* -> (e)
+//@   nodefault
+//@
+//@ // ---- transaction events -------------------------------------------------------------------------
+//@ extern db.ensureContextTxn(ctx, db, readOnly) -> (c, txn, e)
+//@   requires !owned
+//@   ensures e == nil ==> owned
+//@   ensures e != nil ==> !owned
+//@   modifies owned
+//@ extern defer (datastore.Txn).Discard(txn, ctx)
+//@   ensures discardDeferred
+//@   modifies discardDeferred
+//@   nodefault
+//@ extern (datastore.Txn).Commit(txn, ctx) -> (e)
+//@   requires !failed
+//@   requires commitCalls == 0
+//@   ensures commitCalls == old(commitCalls) + 1
+//@   ensures committed == (e == nil)
+//@   modifies commitCalls, committed
+//@
+//@ // ---- ErrFlow: a helper on the mutation path reports every failure of its sub-operations ----------
+//@ protocol ErrFlow
+//@   requires !failed
+//@   ensures errResult == nil ==> !failed
+//@   modifies failed
+//@   tags C05
+//@
+//@ // ---- TxnAPI: a public mutator owns one transaction, commits once, only after full success ---------
+//@ protocol TxnAPI
+//@   requires !failed && !owned && !discardDeferred && commitCalls == 0 && !committed
+//@   ensures owned ==> discardDeferred
+//@   ensures errResult == nil ==> committed && !failed
+//@   ensures commitCalls <= 1
+//@   modifies failed, owned, discardDeferred, commitCalls, committed
+//@   tags C05
+//@
+//@ apply TxnAPI: (*collection).Create, (*collection).CreateMany, (*collection).Update, (*collection).Save,
+//@   (*collection).Delete, (*collection).UpdateWithFilter, (*collection).DeleteWithFilter,
+//@   (*collection).CreateIndex, (*collection).DropIndex,
+//@   (*DB).AddSchema, (*DB).PatchSchema, (*DB).PatchCollection, (*DB).SetActiveSchemaVersion, (*DB).SetMigration,
+//@   (*DB).AddView, (*DB).RefreshViews, (*DB).BasicImport
+//@ apply ErrFlow: (*collection).create, (*collection).update, (*collection).save, (*collection).applyDelete,
+//@   (*collection).updateWithFilter, (*collection).deleteWithFilter,
+//@   (*collection).updateIndexedDoc, (*collection).indexNewDoc, (*collection).deleteIndexedDoc,
+//@   (*collection).deleteIndexedDocWithID, (*collection).createIndex, (*collection).dropIndex,
+//@   (*collection).indexExistingDocs, (*collection).registerDocWithACP, (*collection).updateDocIndex,
+//@   (*collection).addNewIndex, (*collection).iterateAllDocs,
+//@   (*DB).basicImport, syncIndexedDoc
+//@
+//@ func syncIndexedDoc
+//@   tolerates call#1 Get when is(e, client.ErrDocumentNotFoundOrNotAuthorized) "a document absent before the merge is a new document: handled by the isNewDoc branch"
+//@   tolerates call#2 Get when is(e, client.ErrDocumentNotFoundOrNotAuthorized) "a document absent after the merge was deleted: handled by the isDeletedDoc branch"
